@@ -13,13 +13,14 @@ Section Def.
 Context {T : Type} `{Num T}.
 Variable sqrtf : T -> T.
 
-(* pointwise squared 2-norm over the d components *)
-Fixpoint pwsq (d m : nat) (x : list T) : list T :=
-  match d with
-  | O => vconst m nzero
-  | S d' => vadd (vmul (firstn m x) (firstn m x)) (pwsq d' m (skipn m x))
+(* pointwise squared weighted 2-norm over the components: sum_j cw_j x_j^2 (PointwiseNorm._call_vecfield_p with
+   the component weights cw of the product space; cw = [1; ..; 1] on an unweighted power space) *)
+Fixpoint pwsq (cw : list T) (m : nat) (x : list T) : list T :=
+  match cw with
+  | [] => vconst m nzero
+  | c :: cw' => vadd (vscal c (vmul (firstn m x) (firstn m x))) (pwsq cw' m (skipn m x))
   end.
-Definition pwn (d m : nat) (x : list T) : list T := map sqrtf (pwsq d m x).
+Definition pwn (cw : list T) (m : nat) (x : list T) : list T := map sqrtf (pwsq cw m x).
 (* apply g to every entry of every component together with the per-point factor *)
 Fixpoint bap (g : T -> T -> T) (d m : nat) (F x : list T) : list T :=
   match d with
@@ -32,25 +33,29 @@ Fixpoint list_eqb (a b : list T) : bool :=
   | u :: a', v :: b' => (u =? v) && list_eqb a' b'
   | _, _ => false
   end.
-Fixpoint blocks_eq (d m : nat) (wb w : list T) : bool :=
-  match d with
-  | O => match w with [] => true | _ => false end
-  | S d' => list_eqb (firstn m w) wb && blocks_eq d' m wb (skipn m w)
+(* the flat weights of the product space: block j is cw_j * (weights wb of the base space) *)
+Fixpoint blocks_eq (cw : list T) (m : nat) (wb w : list T) : bool :=
+  match cw with
+  | [] => match w with [] => true | _ => false end
+  | c :: cw' => list_eqb (firstn m w) (vscal c wb) && blocks_eq cw' m wb (skipn m w)
   end.
+Definition base_weights (cw : list T) (m : nat) (w : list T) : list T :=
+  match cw with c :: _ => map (fun a => a / c) (firstn m w) | [] => [] end.
 
-Definition group_pair (d m : nat) : cpair :=
+Definition group_pair (cw : list T) (m : nat) : cpair :=
+  let d := length cw in
   {| pv := fun b w x =>
-       let pn := pwn d m x in
-       if b then Ok (EFin (wsum (firstn m w) pn))                                   (* GroupL1Norm._call *)
+       let pn := pwn cw m x in
+       if b then Ok (EFin (wsum (base_weights cw m w) pn))                                   (* GroupL1Norm._call *)
        else Ok (if none_ <? vmaxabs pn then EPInf else EFin nzero);                  (* IndicatorGroupL1UnitBall._call *)
      pp := fun b w sigma x =>
-       let pn := pwn d m x in
+       let pn := pwn cw m x in
        if b then Ok (bap (fun a dn => a - a / dn) d m
                          (map (fun p => nmax (p / (sigma * none_)) none_) pn) x)    (* proximal_l1_l2 *)
        else Ok (bap (fun a dn => a / dn) d m (map (fun p => nmax p none_ / none_) pn) x);   (* proximal_convex_conj_l1_l2 *)
      pg := fun _ _ _ => Err ENotImpl;
      ptag := fun b => if b then 17%nat else 18%nat;
-     pw := fun w => blocks_eq d m (firstn m w) w |}.
+     pw := fun w => blocks_eq cw m (base_weights cw m w) w |}.
 End Def.
 
 (* =========================================================================================== *)
@@ -89,84 +94,101 @@ Proof.
   - rewrite vmaxabs_cons. eapply Rle_trans; [apply IH | apply Rmax_r].
 Qed.
 
+Definition cwpos (cw : Rvec) := Forall (fun c => 0 < c) cw.
+
 Section Pf.
 Variable sqrtf : R -> R.
 Hypothesis sqrtf_spec : forall a, 0 <= a -> 0 <= sqrtf a /\ sqrtf a * sqrtf a = a.
-Variables d m : nat.
+Variable m : nat.
 
-(* pointwise inner product of two fields *)
-Fixpoint pdot (d : nat) (x y : Rvec) : Rvec :=
-  match d with
-  | O => vconst m 0
-  | S d' => vadd (vmul (firstn m x) (firstn m y)) (pdot d' (skipn m x) (skipn m y))
+(* pointwise weighted inner product of two fields *)
+Fixpoint pdot (cw : Rvec) (x y : Rvec) : Rvec :=
+  match cw with
+  | [] => vconst m 0
+  | c :: cw' => vadd (vscal c (vmul (firstn m x) (firstn m y))) (pdot cw' (skipn m x) (skipn m y))
   end.
-Lemma pwsq_pdot d0 x : pwsq d0 m x = pdot d0 x x.
-Proof. revert x; induction d0 as [|d0 IH]; intros x; cbn [pwsq pdot]; [reflexivity | rewrite IH; reflexivity]. Qed.
-Lemma pdot_length d0 : forall x y, length x = (d0 * m)%nat -> length y = (d0 * m)%nat -> length (pdot d0 x y) = m.
+Lemma pwsq_pdot cw x : pwsq cw m x = pdot cw x x.
+Proof. revert x; induction cw as [|c cw IH]; intros x; cbn [pwsq pdot]; [reflexivity | rewrite IH; reflexivity]. Qed.
+Lemma pdot_length cw : forall x y, length x = (length cw * m)%nat -> length y = (length cw * m)%nat ->
+  length (pdot cw x y) = m.
 Proof.
-  induction d0 as [|d0 IH]; intros x y Lx Ly; cbn [pdot]; [apply repeat_length|].
-  cbn in Lx, Ly.
+  induction cw as [|c cw IH]; intros x y Lx Ly; cbn [pdot]; [apply repeat_length|].
+  cbn [length] in Lx, Ly. cbn in Lx, Ly.
   assert (L1 : length (firstn m x) = m) by (apply firstn_len_le; lia).
   assert (L2 : length (firstn m y) = m) by (apply firstn_len_le; lia).
-  assert (L3 : length (pdot d0 (skipn m x) (skipn m y)) = m) by (apply IH; rewrite skipn_length; lia).
-  rewrite vadd_length; rewrite vmul_length; congruence.
+  assert (L3 : length (pdot cw (skipn m x) (skipn m y)) = m) by (apply IH; rewrite skipn_length; lia).
+  rewrite vadd_length; rewrite vscal_length, vmul_length; congruence.
 Qed.
 
-(* <x, y> on the power space is the base-space weighted sum of the pointwise inner products *)
 Lemma list_eqb_eq (a b : Rvec) : list_eqb a b = true -> a = b.
 Proof.
   revert b; induction a as [|u a IH]; intros [|v b] Hl; cbn in Hl; try discriminate; [reflexivity|].
   apply andb_prop in Hl as [H1 H2]. numR. destruct (Reqb_spec u v); [|discriminate]. subst. f_equal. apply IH, H2.
 Qed.
-Lemma wdot_blocks wb : length wb = m -> forall d0 w x y, blocks_eq d0 m wb w = true ->
-  length x = (d0 * m)%nat -> length y = (d0 * m)%nat -> wdot w x y = wsum wb (pdot d0 x y).
+Lemma wsum_vconst0 (wb : Rvec) n : wsum wb (vconst n 0) = 0.
 Proof.
-  intros Lwb. induction d0 as [|d0 IH]; intros w x y Hb Lx Ly; cbn [blocks_eq pdot] in *.
-  - destruct w; [|discriminate]. rewrite wdot_nil_w.
-    assert (E : forall n, wsum wb (vconst n 0) = 0).
-    { clear. induction wb as [|c wb IH]; intros [|n]; unfold wsum, vconst, vmul in *; cbn [repeat vmap2 sumf]; numR; try lra.
-      specialize (IH n). unfold vconst in IH. rewrite IH. lra. }
-    rewrite E. reflexivity.
-  - apply andb_prop in Hb as [H1 H2]. apply list_eqb_eq in H1.
-    rewrite (wdot_split m w x y), H1. cbn in Lx, Ly.
+  revert n; induction wb as [|c wb IH]; intros [|n]; unfold wsum, vconst, vmul in *; cbn [repeat vmap2 sumf]; numR; try lra.
+  specialize (IH n). unfold vconst in IH. rewrite IH. lra.
+Qed.
+Lemma wdot_scaled_block c (wb a b : Rvec) : wdot (vscal c wb) a b = wsum wb (vscal c (vmul a b)).
+Proof.
+  revert a b; induction wb as [|u wb IH]; intros [|p a] [|q b]; unfold wdot, wsum, vscal, vmul in *; cbn [map vmap2 sumf];
+    numR; try lra.
+  rewrite IH. ring.
+Qed.
+(* <x, y> on the product space is the base-space weighted sum of the pointwise weighted inner products *)
+Lemma wdot_blocks wb : length wb = m -> forall cw w x y, blocks_eq cw m wb w = true ->
+  length x = (length cw * m)%nat -> length y = (length cw * m)%nat -> wdot w x y = wsum wb (pdot cw x y).
+Proof.
+  intros Lwb. induction cw as [|c cw IH]; intros w x y Hb Lx Ly; cbn [blocks_eq pdot] in *.
+  - destruct w; [|discriminate]. rewrite wdot_nil_w, wsum_vconst0. reflexivity.
+  - apply andb_prop in Hb as [H1 H2]. apply list_eqb_eq in H1. cbn [length] in Lx, Ly. cbn in Lx, Ly.
+    rewrite (wdot_split m w x y), H1.
     rewrite (IH (skipn m w) (skipn m x) (skipn m y) H2) by (rewrite skipn_length; lia).
     rewrite wsum_vadd.
-    2:{ rewrite vmul_length, pdot_length; rewrite ?firstn_len_le, ?skipn_length by lia; try reflexivity; lia. }
-    f_equal.
+    2:{ rewrite vscal_length, vmul_length, pdot_length; rewrite ?firstn_len_le, ?skipn_length by lia; try reflexivity; lia. }
+    rewrite wdot_scaled_block. reflexivity.
 Qed.
 
-Lemma pwsq_length d0 x : length x = (d0 * m)%nat -> length (pwsq d0 m x) = m.
+Lemma pwsq_length cw x : length x = (length cw * m)%nat -> length (pwsq cw m x) = m.
 Proof. intros Lx. rewrite pwsq_pdot. apply pdot_length; assumption. Qed.
-Lemma pwsq_nonneg d0 : forall x i, length x = (d0 * m)%nat -> (i < m)%nat -> 0 <= nth i (pwsq d0 m x) 0.
+Lemma nth_vscal c (l : Rvec) i : nth i (vscal c l) 0 = c * nth i l 0.
 Proof.
-  induction d0 as [|d0 IH]; intros x i Lx Hi; cbn [pwsq]; [rewrite nth_vconst; lra|].
-  cbn in Lx.
+  unfold vscal. replace 0 with (c * 0) at 1 by ring. rewrite (map_nth (fun a => c * a)). reflexivity.
+Qed.
+Lemma pwsq_nonneg cw : cwpos cw -> forall x i, length x = (length cw * m)%nat -> (i < m)%nat -> 0 <= nth i (pwsq cw m x) 0.
+Proof.
+  induction 1 as [|c cw Hc Hcw IH]; intros x i Lx Hi; cbn [pwsq]; [rewrite nth_vconst; lra|].
+  cbn [length] in Lx. cbn in Lx.
   assert (L1 : length (firstn m x) = m) by (apply firstn_len_le; lia).
-  assert (L3 : length (skipn m x) = (d0 * m)%nat) by (rewrite skipn_length; lia).
-  unfold vadd, vmul. rewrite !nth_vmap2; rewrite ?vmap2_length, ?pwsq_length by congruence; try lia. numR.
-  specialize (IH (skipn m x) i L3 Hi). pose proof (Rle_0_sqr (nth i (firstn m x) 0)) as Q. unfold Rsqr in Q. lra.
+  assert (L3 : length (skipn m x) = (length cw * m)%nat) by (rewrite skipn_length; lia).
+  unfold vadd. rewrite nth_vmap2; rewrite ?vscal_length, ?vmul_length, ?pwsq_length by congruence; try lia.
+  rewrite nth_vscal. unfold vmul. rewrite nth_vmap2 by lia. numR.
+  specialize (IH (skipn m x) i L3 Hi). pose proof (Rle_0_sqr (nth i (firstn m x) 0)) as Q. unfold Rsqr in Q. nra.
 Qed.
 
-(* two-term step of the pointwise Cauchy-Schwarz inequality *)
-Lemma sqrt_cs_step a b c A B : 0 <= A -> 0 <= B -> c <= sqrtf A * sqrtf B ->
-  a * b + c <= sqrtf (a * a + A) * sqrtf (b * b + B).
+(* two-term step of the pointwise weighted Cauchy-Schwarz inequality *)
+Lemma sqrt_cs_step c a b t A B : 0 <= c -> 0 <= A -> 0 <= B -> t <= sqrtf A * sqrtf B ->
+  c * (a * b) + t <= sqrtf (c * (a * a) + A) * sqrtf (c * (b * b) + B).
 Proof.
-  intros HA HB Hc.
+  intros Hc HA HB Ht.
   destruct (sqrtf_spec A HA) as [a1 a2]. destruct (sqrtf_spec B HB) as [b1 b2].
-  assert (HA' : 0 <= a * a + A) by nra. assert (HB' : 0 <= b * b + B) by nra.
+  assert (Haa : 0 <= a * a) by apply Rle_0_sqr. assert (Hbb : 0 <= b * b) by apply Rle_0_sqr.
+  assert (HA' : 0 <= c * (a * a) + A) by nra. assert (HB' : 0 <= c * (b * b) + B) by nra.
   destruct (sqrtf_spec _ HA') as [p1 p2]. destruct (sqrtf_spec _ HB') as [q1 q2].
   set (sA := sqrtf A) in *. set (sB := sqrtf B) in *.
-  set (P := sqrtf (a * a + A)) in *. set (Q := sqrtf (b * b + B)) in *.
-  assert (Hmain : a * b + sA * sB <= P * Q).
-  { destruct (Rle_dec (a * b + sA * sB) (P * Q)); [assumption|]. exfalso.
+  set (P := sqrtf (c * (a * a) + A)) in *. set (Q := sqrtf (c * (b * b) + B)) in *.
+  assert (Hmain : c * (a * b) + sA * sB <= P * Q).
+  { destruct (Rle_dec (c * (a * b) + sA * sB) (P * Q)); [assumption|]. exfalso.
     assert (0 <= P * Q) by nra.
-    assert (Hsq : (a * b + sA * sB) * (a * b + sA * sB) <= (P * Q) * (P * Q)).
+    assert (Hsq : (c * (a * b) + sA * sB) * (c * (a * b) + sA * sB) <= (P * Q) * (P * Q)).
     { replace ((P * Q) * (P * Q)) with ((P * P) * (Q * Q)) by ring. rewrite p2, q2.
-      assert (0 <= (a * sB - b * sA) * (a * sB - b * sA)) by apply Rle_0_sqr.
-      replace ((a * b + sA * sB) * (a * b + sA * sB))
-        with (a * a * (b * b) + 2 * (a * sB) * (b * sA) + (sA * sA) * (sB * sB)) by ring.
+      assert (Hd : 0 <= c * ((a * sB - b * sA) * (a * sB - b * sA))) by (apply Rmult_le_pos; [assumption | apply Rle_0_sqr]).
+      replace ((c * (a * b) + sA * sB) * (c * (a * b) + sA * sB))
+        with (c * c * (a * a) * (b * b) + 2 * c * (a * sB) * (b * sA) + (sA * sA) * (sB * sB)) by ring.
       rewrite a2, b2.
-      replace ((a * a + A) * (b * b + B)) with (a * a * (b * b) + a * a * B + A * (b * b) + A * B) by ring.
+      replace ((c * (a * a) + A) * (c * (b * b) + B))
+        with (c * c * (a * a) * (b * b) + c * (a * a * B) + c * (A * (b * b)) + A * B) by ring.
       replace (a * a * B) with ((a * sB) * (a * sB)) by (rewrite <- b2; ring).
       replace (A * (b * b)) with ((b * sA) * (b * sA)) by (rewrite <- a2; ring).
       nra. }
@@ -174,21 +196,20 @@ Proof.
   lra.
 Qed.
 
-Lemma pdot_cs d0 : forall x y i, length x = (d0 * m)%nat -> length y = (d0 * m)%nat -> (i < m)%nat ->
-  nth i (pdot d0 x y) 0 <= sqrtf (nth i (pwsq d0 m x) 0) * sqrtf (nth i (pwsq d0 m y) 0).
+Lemma pdot_cs cw : cwpos cw -> forall x y i, length x = (length cw * m)%nat -> length y = (length cw * m)%nat -> (i < m)%nat ->
+  nth i (pdot cw x y) 0 <= sqrtf (nth i (pwsq cw m x) 0) * sqrtf (nth i (pwsq cw m y) 0).
 Proof.
-  induction d0 as [|d0 IH]; intros x y i Lx Ly Hi; cbn [pdot pwsq].
+  intros Hcw. induction Hcw as [|c cw Hc Hcw IH]; intros x y i Lx Ly Hi; cbn [pdot pwsq].
   - rewrite !nth_vconst. destruct (sqrtf_spec 0 ltac:(lra)) as [s1 s2]. nra.
-  - cbn in Lx, Ly.
+  - cbn [length] in Lx, Ly. cbn in Lx, Ly.
     assert (L1 : length (firstn m x) = m) by (apply firstn_len_le; lia).
     assert (L2 : length (firstn m y) = m) by (apply firstn_len_le; lia).
-    assert (L3 : length (skipn m x) = (d0 * m)%nat) by (rewrite skipn_length; lia).
-    assert (L4 : length (skipn m y) = (d0 * m)%nat) by (rewrite skipn_length; lia).
-    unfold vadd, vmul.
-    rewrite !nth_vmap2; rewrite ?vmap2_length, ?pdot_length, <- ?pwsq_pdot; rewrite ?pwsq_pdot, ?pdot_length;
-      try assumption; try congruence; try lia. numR.
-    rewrite <- !pwsq_pdot.
-    apply sqrt_cs_step; try (apply pwsq_nonneg; assumption). apply IH; assumption.
+    assert (L3 : length (skipn m x) = (length cw * m)%nat) by (rewrite skipn_length; lia).
+    assert (L4 : length (skipn m y) = (length cw * m)%nat) by (rewrite skipn_length; lia).
+    unfold vadd.
+    rewrite !nth_vmap2; rewrite ?vscal_length, ?vmul_length, ?pdot_length, ?pwsq_length; try congruence; try lia.
+    rewrite !nth_vscal. unfold vmul. rewrite !nth_vmap2 by lia. numR.
+    apply sqrt_cs_step; try lra; try (apply pwsq_nonneg; assumption). apply IH; assumption.
 Qed.
 
 End Pf.
@@ -200,57 +221,62 @@ Variable m : nat.
 
 Lemma sqrtf_zero0 : sqrtf 0 = 0.
 Proof. destruct (sqrtf_spec 0 ltac:(lra)) as [H1 H2]. nra. Qed.
-Lemma nth_pwn d0 x i : nth i (pwn sqrtf d0 m x) 0 = sqrtf (nth i (pwsq d0 m x) 0).
+Lemma nth_pwn cw x i : nth i (pwn sqrtf cw m x) 0 = sqrtf (nth i (pwsq cw m x) 0).
 Proof. unfold pwn. rewrite <- sqrtf_zero0 at 1. apply map_nth. Qed.
 
-(* Fenchel-Young for the group pair *)
-Lemma group_fy d0 w x y : wpos w -> (1 <= d0)%nat -> length w = (d0 * m)%nat ->
-  blocks_eq d0 m (firstn m w) w = true -> length x = (d0 * m)%nat -> length y = (d0 * m)%nat ->
-  vmaxabs (pwn sqrtf d0 m y) <= 1 -> wdot w x y <= wsum (firstn m w) (pwn sqrtf d0 m x).
+Lemma base_weights_pos c cw w : 0 < c -> wpos w -> wpos (base_weights (c :: cw) m w).
 Proof.
-  intros Hw Hd Lw Hb Lx Ly Hmax.
-  assert (Lwb : length (firstn m w) = m) by (apply firstn_len_le; nia).
-  rewrite (wdot_blocks m (firstn m w) Lwb d0 w x y Hb Lx Ly).
+  intros Hc Hw. unfold base_weights. pose proof (wpos_firstn m w Hw) as Hf. unfold wpos in *.
+  induction Hf as [|a l Ha Hl IH]; cbn [map]; constructor; [apply Rdiv_lt_0_compat; assumption | assumption].
+Qed.
+
+(* Fenchel-Young for the group pair *)
+Lemma group_fy cw w x y : cwpos cw -> cw <> [] -> wpos w -> length w = (length cw * m)%nat ->
+  blocks_eq cw m (base_weights cw m w) w = true -> length x = (length cw * m)%nat -> length y = (length cw * m)%nat ->
+  vmaxabs (pwn sqrtf cw m y) <= 1 -> wdot w x y <= wsum (base_weights cw m w) (pwn sqrtf cw m x).
+Proof.
+  intros Hcw Hne Hw Lw Hb Lx Ly Hmax. destruct cw as [|c cw]; [contradiction|]. inversion Hcw as [|? ? Hc Hcw']; subst.
+  assert (Lwb : length (base_weights (c :: cw) m w) = m).
+  { unfold base_weights. rewrite map_length. apply firstn_len_le. cbn [length] in Lw. nia. }
+  rewrite (wdot_blocks m _ Lwb (c :: cw) w x y Hb Lx Ly).
   apply wsum_le.
-  - apply wpos_firstn; assumption.
+  - apply base_weights_pos; assumption.
   - rewrite pdot_length; congruence.
   - unfold pwn. rewrite map_length, pwsq_length; congruence.
   - intros i Hi. rewrite Lwb in Hi.
-    pose proof (pdot_cs sqrtf sqrtf_spec m d0 x y i Lx Ly Hi) as Hcs.
+    pose proof (pdot_cs sqrtf sqrtf_spec m (c :: cw) Hcw x y i Lx Ly Hi) as Hcs.
     rewrite nth_pwn.
-    destruct (sqrtf_spec _ (pwsq_nonneg m d0 x i Lx Hi)) as [sx _].
-    destruct (sqrtf_spec _ (pwsq_nonneg m d0 y i Ly Hi)) as [sy _].
-    pose proof (vmaxabs_ge_nth (pwn sqrtf d0 m y) i) as Hn. rewrite nth_pwn in Hn.
+    destruct (sqrtf_spec _ (pwsq_nonneg m (c :: cw) Hcw x i Lx Hi)) as [sx _].
+    destruct (sqrtf_spec _ (pwsq_nonneg m (c :: cw) Hcw y i Ly Hi)) as [sy _].
+    pose proof (vmaxabs_ge_nth (pwn sqrtf (c :: cw) m y) i) as Hn. rewrite nth_pwn in Hn.
     rewrite Rabs_right in Hn by lra.
-    assert (sqrtf (nth i (pwsq d0 m x) 0) * sqrtf (nth i (pwsq d0 m y) 0) <= sqrtf (nth i (pwsq d0 m x) 0) * 1)
-      by (apply Rmult_le_compat_l; lra).
+    assert (sqrtf (nth i (pwsq (c :: cw) m x) 0) * sqrtf (nth i (pwsq (c :: cw) m y) 0)
+            <= sqrtf (nth i (pwsq (c :: cw) m x) 0) * 1) by (apply Rmult_le_compat_l; lra).
     lra.
 Qed.
 
 (* scaling *)
-Lemma Forall_vmap2 (P : R -> Prop) (f : R -> R -> R) (a b : Rvec) :
-  (forall u v, P (f u v)) -> Forall P (vmap2 f a b).
-Proof. intros Hf. revert b; induction a as [|p a IH]; intros [|q b]; cbn [vmap2]; constructor; auto. Qed.
 Lemma Forall_vadd_nonneg (a b : Rvec) : Forall (fun u => 0 <= u) a -> Forall (fun u => 0 <= u) b ->
   Forall (fun u => 0 <= u) (vadd a b).
 Proof.
   intros Ha; revert b; induction Ha as [|p a Hp Ha IH]; intros b Hb; destruct Hb as [|q b Hq Hb]; unfold vadd; cbn [vmap2];
     constructor; [numR; lra | apply IH; assumption].
 Qed.
-Lemma pwsq_all_nonneg d0 : forall x, Forall (fun u => 0 <= u) (pwsq d0 m x).
+Lemma pwsq_all_nonneg cw : cwpos cw -> forall x, Forall (fun u => 0 <= u) (pwsq cw m x).
 Proof.
-  induction d0 as [|d0 IH]; intros x; cbn [pwsq].
+  induction 1 as [|c cw Hc Hcw IH]; intros x; cbn [pwsq].
   - unfold vconst. induction m; cbn; constructor; [lra | assumption].
-  - apply Forall_vadd_nonneg; [|apply IH]. unfold vmul.
-    generalize (firstn m x). intros l. induction l as [|a l IHl]; cbn [vmap2]; constructor; [numR; apply Rle_0_sqr | assumption].
+  - apply Forall_vadd_nonneg; [|apply IH]. unfold vmul, vscal.
+    generalize (firstn m x). intros l. induction l as [|a l IHl]; cbn [vmap2 map]; constructor; [|assumption].
+    numR. pose proof (Rle_0_sqr a) as Q. unfold Rsqr in Q. nra.
 Qed.
 Lemma vmul_vscal2 k (a : Rvec) : vmul (vscal k a) (vscal k a) = vscal (k * k) (vmul a a).
 Proof. induction a as [|p a IH]; unfold vmul, vscal in *; cbn [map vmap2]; [reflexivity|]. rewrite IH. numR. f_equal. ring. Qed.
-Lemma pwsq_scale k d0 : forall x, pwsq d0 m (vscal k x) = vscal (k * k) (pwsq d0 m x).
+Lemma pwsq_scale k cw : forall x, pwsq cw m (vscal k x) = vscal (k * k) (pwsq cw m x).
 Proof.
-  induction d0 as [|d0 IH]; intros x; cbn [pwsq].
+  induction cw as [|c cw IH]; intros x; cbn [pwsq].
   - unfold vconst, vscal. induction m; cbn [repeat map]; [reflexivity|]. rewrite <- IHn. numR. f_equal. ring.
-  - rewrite firstn_vscal, skipn_vscal, IH, vmul_vscal2, vscal_vadd. reflexivity.
+  - rewrite firstn_vscal, skipn_vscal, IH, vmul_vscal2, vscal_vadd, !vscal_vscal. do 2 f_equal. ring.
 Qed.
 Lemma sqrtf_scale k s : 0 < k -> 0 <= s -> sqrtf (k * k * s) = k * sqrtf s.
 Proof.
@@ -261,15 +287,16 @@ Proof.
   assert (E : A * A = (k * B) * (k * B)) by (rewrite b2; replace (k * B * (k * B)) with (k * k * (B * B)) by ring; rewrite a2; ring).
   assert (0 <= k * B) by nra. nra.
 Qed.
-Lemma pwn_scale k d0 x : 0 < k -> pwn sqrtf d0 m (vscal k x) = map (fun p => k * p) (pwn sqrtf d0 m x).
+Lemma pwn_scale k cw x : cwpos cw -> 0 < k -> pwn sqrtf cw m (vscal k x) = map (fun p => k * p) (pwn sqrtf cw m x).
 Proof.
-  intros Hk. unfold pwn. rewrite pwsq_scale. unfold vscal. rewrite !map_map.
-  pose proof (pwsq_all_nonneg d0 x) as Hnn. induction Hnn as [|s l Hs Hl IH]; cbn [map]; [reflexivity|].
+  intros Hcw Hk. unfold pwn. rewrite pwsq_scale. unfold vscal. rewrite !map_map.
+  pose proof (pwsq_all_nonneg cw Hcw x) as Hnn. induction Hnn as [|s l Hs Hl IH]; cbn [map]; [reflexivity|].
   rewrite IH. numR. f_equal. apply sqrtf_scale; assumption.
 Qed.
 
 (* block application *)
-Lemma bap_length (g : R -> R -> R) d0 : forall (F x : Rvec), length x = (d0 * m)%nat -> length F = m -> length (bap g d0 m F x) = (d0 * m)%nat.
+Lemma bap_length (g : R -> R -> R) d0 : forall (F x : Rvec), length x = (d0 * m)%nat -> length F = m ->
+  length (bap g d0 m F x) = (d0 * m)%nat.
 Proof.
   induction d0 as [|d0 IH]; intros F x Lx LF; cbn [bap]; [reflexivity|]. cbn in Lx.
   rewrite app_length, vmap2_length, firstn_len_le, IH by (rewrite ?firstn_len_le, ?skipn_length by lia; lia). lia.
@@ -294,10 +321,10 @@ Proof.
     rewrite IH by (rewrite ?skipn_length; lia). apply firstn_skipn.
 Qed.
 
-Lemma group_moreau d0 : pair_moreau (d0 * m) (group_pair sqrtf d0 m).
+Lemma group_moreau cw : cwpos cw -> pair_moreau (length cw * m) (group_pair sqrtf cw m).
 Proof.
-  intros w b s x p q Lw Lx Hs Hp Hq. assert (Hks : 0 < 1 / s) by (apply Rdiv_lt_0_compat; lra).
-  assert (LP : length (pwn sqrtf d0 m x) = m) by (unfold pwn; rewrite map_length; apply pwsq_length; assumption).
+  intros Hcw w b s x p q Lw Lx Hs Hp Hq. assert (Hks : 0 < 1 / s) by (apply Rdiv_lt_0_compat; lra).
+  assert (LP : length (pwn sqrtf cw m x) = m) by (unfold pwn; rewrite map_length; apply pwsq_length; assumption).
   destruct b; cbn [group_pair pp negb] in Hp, Hq; injection Hp as <-; injection Hq as <-;
     rewrite (pwn_scale (1 / s)) by assumption; rewrite map_map.
   - apply (bap_moreau (fun a dn => a - a / dn) (fun a dn => a / dn)
@@ -312,22 +339,22 @@ Proof.
     pose proof (Rmax_r p0 1). set (M := Rmax p0 1) in *. field. lra.
 Qed.
 
-Theorem group_pair_ok d0 : (1 <= d0)%nat -> pair_ok (d0 * m) (group_pair sqrtf d0 m).
+Theorem group_pair_ok cw : cwpos cw -> cw <> [] -> pair_ok (length cw * m) (group_pair sqrtf cw m).
 Proof.
-  intros Hd. split; [|split].
+  intros Hcw Hne. split; [|split].
   - split.
     + intros w b s x p Lx Hp.
-      assert (LP : length (pwn sqrtf d0 m x) = m) by (unfold pwn; rewrite map_length; apply pwsq_length; assumption).
+      assert (LP : length (pwn sqrtf cw m x) = m) by (unfold pwn; rewrite map_length; apply pwsq_length; assumption).
       destruct b; cbn [group_pair pp] in Hp; injection Hp as <-; apply bap_length; rewrite ?map_length; assumption.
     + intros w b x g Lx Hg. discriminate Hg.
-  - apply group_moreau.
+  - apply group_moreau; assumption.
   - intros w Hw Lw Hpw. cbn [group_pair pw] in Hpw. split.
     + intros b x y vx vy Lx Ly Hvx Hvy.
       destruct b; cbn [group_pair pv negb] in Hvx, Hvy; injection Hvx as <-; injection Hvy as <-; numR.
-      * destruct (Rltb_spec 1 (vmaxabs (pwn sqrtf d0 m y))) as [Hgt|Hle]; cbn [eadd]; [exact I|]. numR.
-        pose proof (group_fy d0 w x y Hw Hd Lw Hpw Lx Ly ltac:(lra)). lra.
-      * destruct (Rltb_spec 1 (vmaxabs (pwn sqrtf d0 m x))) as [Hgt|Hle]; cbn [eadd]; [exact I|]. numR.
-        rewrite wdot_comm. pose proof (group_fy d0 w y x Hw Hd Lw Hpw Ly Lx ltac:(lra)). lra.
+      * destruct (Rltb_spec 1 (vmaxabs (pwn sqrtf cw m y))) as [Hgt|Hle]; cbn [eadd]; [exact I|]. numR.
+        pose proof (group_fy cw w x y Hcw Hne Hw Lw Hpw Lx Ly ltac:(lra)). lra.
+      * destruct (Rltb_spec 1 (vmaxabs (pwn sqrtf cw m x))) as [Hgt|Hle]; cbn [eadd]; [exact I|]. numR.
+        rewrite wdot_comm. pose proof (group_fy cw w y x Hcw Hne Hw Lw Hpw Ly Lx ltac:(lra)). lra.
     + intros b x g vx vg Lx Hg. discriminate Hg.
 Qed.
 
